@@ -47,7 +47,12 @@ def build(rng, nops):
             desc = b'' if rng.random() < 0.5 else bytes(rng.randrange(32, 127) for _ in range(rng.choice([1, 7, 30])))
             lines.append('P.new %s %s' % (hx(name), hx(desc)))
             for _ in range(rng.choice([0, 1, 1, 1, 2])):
-                lines.append(gen_set(rng)[0]); lines.append('P.show')
+                if rng.random() < 0.15:
+                    # the scalar setters set(int) / set(size_t) / set(float) / set(string): one value, one dimension of one entry
+                    lines.append(rng.choice(['P.seti %d' % rng.choice([0, 1, -1, 32767, -32768, 2147483647, -2147483648]), 'P.setu %d' % rng.choice([0, 1, 255, 65535, 2147483647]),
+                                             'P.setf ' + harness.fhex(gen.rfloat(rng)), 'P.sets ' + hx(gen.rname(rng, 12))]))
+                else: lines.append(gen_set(rng)[0])
+                lines.append('P.show')
             if rng.random() < 0.3: lines.append('P.lock')
             if rng.random() < 0.1: lines.append('P.unlock')
             if rng.random() < 0.1: lines.append('P.name ' + hx(rng.choice(PNAMES)))
@@ -83,7 +88,7 @@ def _retype(rng, ty, dims):
     return dims, [harness.fhex(gen.rfloat(rng)) for _ in range(n)]
 
 def sel(ln):
-    return ln.split(' ')[0] in ('P.get', 'P.desc', 'P.new', 'P.set', 'P.show', 'P.lock', 'P.unlock', 'P.name', 'param', 'lock', 'unlock', 'snap')
+    return ln.split(' ')[0] in ('P.seti', 'P.setu', 'P.setf', 'P.sets', 'P.get', 'P.desc', 'P.new', 'P.set', 'P.show', 'P.lock', 'P.unlock', 'P.name', 'param', 'lock', 'unlock', 'snap')
 def proj(l):
     # the property's projection of a snapshot: the parameter tree (groups, parameters)
     return l if l[:2] in ('G ', 'P ', 'ok', 'th') else None
@@ -153,6 +158,16 @@ def oracle(rep, cid, lines, cl, stats):
                 dd = list(d)
                 if ty == 'S': dd = [max([len(x) for x in v] + [0])] + dd
                 P.update(type={'I': 'I', 'F': 'F', 'S': 'C'}[ty], dims=dd, vals=v)
+        elif c in ('P.seti', 'P.setu', 'P.setf', 'P.sets') and P is not None:
+            stats['set'] = stats.get('set', 0) + 1
+            if o != 'ok':
+                bad += 1; rep.violation('oracle', 'a scalar setter answered %r' % o, script=[l for l in hist if l.startswith('P.')], signature='set-accept')
+            else:
+                stats['set_ok'] = stats.get('set_ok', 0) + 1
+                if c in ('P.seti', 'P.setu'): P.update(type='I', dims=[1], vals=[int(t[1])])
+                elif c == 'P.setf': P.update(type='F', dims=[1], vals=[t[1]])
+                else:
+                    v = harness.unhx(t[1]); P.update(type='C', dims=[len(v), 1], vals=[v])
         elif c == 'P.show' and P is not None:
             got = harness.parse_param(o.split(' ')[1:])
             want = dict(P)
